@@ -896,6 +896,7 @@ UNIT = dict(
 pub struct CharacterClassRegistry { _private: () }
 ''', label='opaque CharacterClassRegistry'),
         Struct(mode.F_SI, 'ScannerImpl', derive=[], dyn_param='M'),
+        RawFile('../common/scanner_wf.rs'),
         RawFile('../u_mode/mode_spec.rs'),
         Struct(F_FMI, 'FindMatchesImpl', derive=[]),
         Enum(F_FM, 'PeekResult'),
